@@ -3,6 +3,7 @@ import ast
 
 from .. import routes
 from ..cfg import CFG
+from ..facts import facts as nfacts
 from ..report import AnalysisError, borrow, norm
 from ..srcmodel import own_nodes, own_statements
 from ..terms import Resolver, alternatives, show, walk
@@ -62,58 +63,149 @@ def r1_agreement(rep, ctx):
               "conversion routes look unit infos up with different flags: %s (one container kind / route accepts units another rejects)" % {str(k): v for k, v in flags.items()}, fn=m.func("UnitDatabase.Convert"))
     # container kind of the element-wise branch
     cv = m.func("UnitDatabase.Convert")
-    from ..facts import facts as nfacts
     ccfg = CFG(cv.node)
-    rets = [r for r in own_nodes(cv.node) if isinstance(r, ast.Return) and isinstance(r.value, ast.Call) and isinstance(r.value.func, ast.Name) and r.value.func.id in ("tuple", "list")]
+    cres = Resolver(m, cv)
+    CV = ("param", cv.params.index("value"), "value")
+    IS_TUPLE = ("call", ("name", "isinstance"), (CV, ("name", "tuple")), ())
     kinds = {}
-    for r in rets:
-        for k, l_, r_, pos in nfacts(ccfg, ccfg.node_of(r)):
-            if k == "truth" and isinstance(l_, ast.Call) and ast.unparse(l_).replace(" ", "") == "isinstance(value,tuple)":
-                kinds[r.value.func.id] = pos
+
+    def under(node, kind):
+        for k, l_, r_, pos in nfacts(ccfg, ccfg.node_of(node)):
+            if k == "truth" and cres.term(l_) == IS_TUPLE:
+                kinds[kind] = pos if kinds.get(kind, pos) == pos else None
+
+    for r in own_nodes(cv.node):
+        if not (isinstance(r, ast.Return) and isinstance(r.value, ast.Call) and isinstance(r.value.func, ast.Name)):
+            continue
+        f = r.value.func
+        if f.id in ("tuple", "list") and f.id not in cres.defs:
+            under(r, f.id)
+            continue
+        for st, t in cres.origins(f):
+            if st is not None and isinstance(st, (ast.Assign, ast.AnnAssign)) and isinstance(st.value, ast.IfExp) and cres.term(st.value.test) == IS_TUPLE:
+                for branch, pos in ((st.value.body, True), (st.value.orelse, False)):
+                    bt = cres.term(branch)
+                    if bt in (("name", "tuple"), ("name", "list")):
+                        kinds[bt[1]] = pos if kinds.get(bt[1], pos) == pos else None
+            elif t in (("name", "tuple"), ("name", "list")) and st is not None:
+                under(st, t[1])
     ok = kinds.get("tuple") is True and kinds.get("list") is False
     rep.check(ok, "C02.R1", "Convert:container-kind", "the element-wise branch returns a tuple exactly for tuple input and a list otherwise", "the element-wise branch chooses its container as %s (tuple/list under isinstance(value, tuple) being)" % kinds, fn=cv)
-    # _ConvertWithExp shape
+    # _ConvertWithExp shape, on normalised terms of what it returns
     fn = m.method("UnitDatabase", "_ConvertWithExp")
     res = Resolver(m, fn)
+    cfg = res.cfg
+    if cfg is None:
+        raise AnalysisError("_ConvertWithExp: no flow graph")
     P = {p: i for i, p in enumerate(fn.params)}
-    convs = [c for c in own_nodes(fn.node) if isinstance(c, ast.Call) and isinstance(c.func, ast.Attribute) and c.func.attr == "Convert"]
-    if len(convs) != 2:
-        raise AnalysisError("_ConvertWithExp: expected two delegations to Convert (exponent 1 / other), found %d: idiom changed, cannot tell whether exponents are honoured" % len(convs))
-    for c in convs:
-        a = [res.term(x) for x in c.args]
-        def from_pair(t, which, idx):
-            # from_unit_exps[0][idx]
-            return any(x == ("sub", ("sub", ("param", P[which], which), ("const", 0)), ("const", idx)) for x in alternatives(t))
-        ok = len(a) == 4 and a[0] == ("param", P["quantity_type"], "quantity_type") and from_pair(a[1], "from_unit_exps", 0) and from_pair(a[2], "to_unit_exps", 0)
-        rep.check(ok, "C02.R1", "_ConvertWithExp:%s:%d" % (norm(ast.unparse(c)), convs.index(c)), "delegates to Convert(quantity type, source unit, target unit, ...)", "delegates with %s" % [show(x, 50) for x in a], node=c, fn=fn)
-    # exponent-1 arm: value unchanged; other arm: root before, power after
-    direct = [c for c in convs if isinstance(c._parent, ast.Return)]
-    ok1 = len(direct) == 1 and res.term(direct[0].args[3]) == ("param", P["value"], "value")
-    g = direct[0]._parent._parent if direct else None
-    ok1 = ok1 and isinstance(g, ast.If) and ast.unparse(g.test).replace(" ", "") in ("from_exp==to_exp==1", "to_exp==from_exp==1")
-    rep.check(ok1, "C02.R1", "_ConvertWithExp:exponent-1", "with exponent 1 on both sides the plain conversion of the value is returned", "the exponent-1 arm is not `return Convert(..., value)` under from_exp == to_exp == 1", fn=fn)
-    pows = [c for c in own_nodes(fn.node) if isinstance(c, ast.Call) and ast.unparse(c.func) in ("math.pow", "pow")]
-    root = [c for c in pows if "1.0 / from_exp" in ast.unparse(c) or "1 / from_exp" in ast.unparse(c)]
-    power = [c for c in pows if len(c.args) == 2 and ast.unparse(c.args[1]) == "to_exp"]
-    if not root or not power:
+    VALUE = ("param", P["value"], "value")
+    QT = ("param", P["quantity_type"], "quantity_type")
+
+    def pair(which, idx):
+        return ("sub", ("sub", ("param", P[which], which), ("const", 0)), ("const", idx))
+
+    FROM_U, FROM_E, TO_U, TO_E = pair("from_unit_exps", 0), pair("from_unit_exps", 1), pair("to_unit_exps", 0), pair("to_unit_exps", 1)
+    POW = (("attr", ("name", "math"), "pow"), ("name", "pow"))
+
+    def is_conv(t):
+        """Convert(quantity type, source unit, target unit, X) on the own database -> X"""
+        if t[0] == "call" and t[1] == ("field", "Convert") and len(t[2]) == 4:
+            return t[2][3] if (t[2][0], t[2][1], t[2][2]) == (QT, FROM_U, TO_U) else False
+        return None
+
+    def magnitude(t):
+        return all(x == VALUE or x == ("call", ("name", "abs"), (VALUE,), ()) for x in alternatives(t))
+
+    def has_abs(t):
+        return any(x == ("call", ("name", "abs"), (VALUE,), ()) for x in alternatives(t))
+
+    def is_root(t):
+        if t[0] == "call" and t[1] in POW and len(t[2]) == 2 and magnitude(t[2][0]):
+            e = t[2][1]
+            return e[0] == "op" and e[1] == "Div" and e[2][0][0] == "const" and e[2][0][1] == 1 and e[2][1] == FROM_E
+        return False
+
+    def shape(t):
+        """'same' | 'plain' | 'power' | 'neg-power' | ('bad-conv', t) | None"""
+        if t == VALUE:
+            return "same"
+        c = is_conv(t)
+        if c is False:
+            return ("bad-conv", t)
+        if c is not None:
+            return "plain" if c == VALUE else None
+        if t[0] == "op" and t[1] == "USub" and len(t[2]) == 1:
+            return "neg-power" if shape(t[2][0]) == "power" and any(has_abs(x[2][0]) for x in walk(t) if x[0] == "call" and x[1] in POW and len(x[2]) == 2) else None
+        if t[0] == "call" and t[1] in POW and len(t[2]) == 2 and t[2][1] == TO_E:
+            c = is_conv(t[2][0])
+            if c is False:
+                return ("bad-conv", t)
+            if c is not None and all(is_root(x) for x in alternatives(c)):
+                return "power"
+        return None
+
+    def exps_are_one(node):
+        """from_exp == to_exp == 1 holds on every path to node (equalities collected from the facts)."""
+        eqs = []
+        for k, l_, r_, pos in nfacts(cfg, node):
+            if k == "eq" and pos:
+                eqs.append({res.term(l_), res.term(r_)})
+            elif k == "truth" and pos and isinstance(l_, ast.Compare) and all(isinstance(o, ast.Eq) for o in l_.ops):
+                eqs.append({res.term(x) for x in [l_.left] + l_.comparators})
+        cls = {("const", 1)}
+        changed = True
+        while changed:
+            changed = False
+            for s_ in eqs:
+                if s_ & cls and not s_ <= cls:
+                    cls |= s_
+                    changed = True
+        return FROM_E in cls and TO_E in cls
+
+    def negative_guard(node):
+        for k, l_, r_, pos in nfacts(cfg, node):
+            if not pos:
+                continue
+            if k in ("lt", "gt") and r_ is not None:
+                lo, hi = (l_, r_) if k == "lt" else (r_, l_)
+                if res.term(lo) == VALUE and isinstance(hi, ast.Constant) and hi.value == 0:
+                    return True
+            if k == "truth" and isinstance(l_, ast.Name):
+                org = res.origins(l_)
+                trues = [st for st, t in org if t == ("const", True)]
+                if trues and all(t[0] == "const" and isinstance(t[1], bool) for st, t in org) and all(st is not None and negative_guard(cfg.node_of(st)) for st in trues):
+                    return True
+        return False
+
+    seen = {}
+    for r in sorted((x for x in own_nodes(fn.node) if isinstance(x, ast.Return) and x.value is not None), key=lambda x: x.lineno):
+        t = res.term(r.value)
+        for a_ in alternatives(t):
+            sh = shape(a_)
+            if isinstance(sh, tuple):
+                rep.bad("C02.R1", "_ConvertWithExp:delegation", "delegates with %s instead of Convert(quantity type, source unit, target unit, ...)" % show(a_, 120), node=r, fn=fn)
+                continue
+            if sh is None:
+                unrooted = [x for x in walk(a_) if x[0] == "call" and x[1] == ("field", "Convert") and len(x[2]) == 4 and magnitude(x[2][3])]
+                if unrooted and any(x[0] == "call" and x[1] in POW for x in walk(a_)):
+                    rep.bad("C02.R1", "_ConvertWithExp:root-convert-power", "the value raised to the exponent is converted without its root being taken first (%s): the exponent arm does not take the root before and the power after the conversion" % show(a_, 120), node=r, fn=fn)
+                    seen.setdefault("power", []).append(r)
+                    continue
+                if any(x[0] == "call" and (x[1] in POW or x[1] == ("field", "Convert")) for x in walk(a_)):
+                    raise AnalysisError("_ConvertWithExp returns %s: not the root-convert-power idiom, the checker cannot tell whether another algorithm honours the exponent" % show(a_, 160))
+                rep.bad("C02.R1", "_ConvertWithExp:returns", "returns %s, which is neither the value, its plain conversion nor the converted root raised to the exponent" % show(a_, 120), node=r, fn=fn)
+                continue
+            seen.setdefault(sh, []).append(r)
+            if sh == "plain":
+                rep.check(exps_are_one(cfg.node_of(r)), "C02.R1", "_ConvertWithExp:exponent-1", "with exponent 1 on both sides the plain conversion of the value is returned",
+                          "the plain conversion of the value is returned without from_exp == to_exp == 1 being established: the exponent is ignored", node=r, fn=fn)
+            if sh == "neg-power":
+                rep.check(negative_guard(cfg.node_of(r)), "C02.R1", "_ConvertWithExp:sign", "the sign of a negative value is restored", "the negated power is returned without the value being negative", node=r, fn=fn)
+    if "power" not in seen and "neg-power" not in seen:
         raise AnalysisError("_ConvertWithExp: the root-convert-power idiom (math.pow(value, 1.0 / from_exp) ... math.pow(value, to_exp)) was not found: the checker cannot tell whether another algorithm honours the exponent")
-    order_ok = bool(root) and bool(power) and root[0].lineno < [c for c in convs if c not in direct][0].lineno < power[0].lineno
-    rep.check(order_ok, "C02.R1", "_ConvertWithExp:root-convert-power", "for other exponents the e-th root is converted and the result raised to the target exponent", "the exponent arm does not take the root before and the power after the conversion", fn=fn)
-    # sign: the result for a negative input is the negated power (if/else or conditional expression)
-    neg_ok = False
-    seen_plain = False
-    for r in own_nodes(fn.node):
-        if isinstance(r, ast.Return) and r.value is not None:
-            t = res.term(r.value)
-            for a in alternatives(t):
-                if a[0] == "op" and a[1] == "USub" and any(x[0] == "call" and x[1] in (("attr", ("name", "math"), "pow"), ("name", "pow")) for x in walk(a)):
-                    neg_ok = True
-                if a[0] == "call" and a[1] in (("attr", ("name", "math"), "pow"), ("name", "pow")):
-                    seen_plain = True
-    tests_neg = any(isinstance(x, ast.Compare) and ast.unparse(x).replace(" ", "") in ("value<0.0", "value<0", "0.0>value", "0>value") for x in ast.walk(fn.node))
-    if not seen_plain:
-        raise AnalysisError("_ConvertWithExp: the returned power was not found (idiom changed)")
-    rep.check(neg_ok and tests_neg, "C02.R1", "_ConvertWithExp:sign", "the sign of a negative value is restored", "the sign of a negative value is not restored", fn=fn)
+    rep.check("plain" in seen, "C02.R1", "_ConvertWithExp:exponent-1:present", "the exponent-1 arm exists", "no arm returns the plain conversion", fn=fn)
+    rep.check("power" in seen, "C02.R1", "_ConvertWithExp:root-convert-power", "for other exponents the e-th root is converted and the result raised to the target exponent", "the exponent arm does not take the root before and the power after the conversion", fn=fn)
+    rep.check("neg-power" in seen, "C02.R1", "_ConvertWithExp:sign:present", "the sign of a negative value is restored", "the sign of a negative value is not restored", fn=fn)
 
 
 # ------------------------------------------------------------------------------------------------
